@@ -37,6 +37,8 @@ META = {
             "Relations between whole perform_fkm_nonlinear_assessment runs on generated sequences, parameter sets and batch compositions; class-edge ambiguities are tagged and not judged.", "3 C10"),
     "C11": ("exploration", "runtime monitoring: reference-model oracle (own sum n_i/N_i) and relation monitors (additivity, proportionality, permutation, rule ordering, Gassner round trip)",
             "Damage of every generated collective is compared with an own Basquin sum; the collective applied for the predicted Gassner cycles must give damage 1 under the matching rule; empty classes at the top, bottom and in between are required input classes.", "3 C11"),
+    "C12": ("exploration", "runtime monitoring: reference-model oracle (geometric iso-damage line follower) and relation monitors (path independence, idempotence, fixed point, continuity, monotonicity, interface agreement, cycle conservation)",
+            "FKM-Goodman amplitudes are compared with an independent geometric oracle; arbitrary five-segment diagrams are judged by the relations the property states; matrix transforms by cycle conservation per extra index level.", "3 C12"),
     "C03": ("exploration", "runtime monitoring: metamorphic relation monitors between executions (refinement, negation, "
             "affine map, NaN insertion, Series index types), sanitizer replays",
             "Relations between pairs of real executions, each with its own counter; ties that rounding may flip are "
